@@ -189,6 +189,21 @@ pub fn special_inputs(prefix: &str) -> Vec<Input> {
         mk("and-of-lits", 2, "c2d", &["nnf 3 2 2", "L -1", "L 2", "A 2 0 1"], vec![2], "c2d, -x1 and x2"),
         mk("d4-true", 2, "d4", &["t 1 0"], vec![0, 1, 2, 3], "d4, a lone true node with 2 free features"),
         mk("d4-unit", 2, "d4", &["o 1 0", "t 2 0", "1 2 -1 0"], vec![0, 2], "d4, -x1 with a free feature"),
+        // dead or nodes: every edge of the or node goes into f; the node stays (count 0) below its parent
+        mk("d4-dead-or", 2, "d4", &["o 1 0", "t 2 0", "o 3 0", "f 4 0", "1 2 1 2 0", "1 3 -1 0", "3 4 2 0"],
+           vec![3], "d4, x1 & x2; the -x1 branch is an or node whose only edge goes into f"),
+        mk("d4-dead-or-2", 3, "d4", &["o 1 0", "t 2 0", "o 3 0", "f 4 0", "1 2 1 2 0", "1 3 -1 0", "3 4 2 0", "3 4 -2 0"],
+           vec![3, 7], "d4, x1 & x2 (x3 free); the -x1 branch is an or node with both edges into f"),
+        mk("d4-dead-or-below-and", 3, "d4",
+           &["o 1 0", "a 2 0", "o 3 0", "f 4 0", "t 5 0", "o 6 0", "1 2 1 0", "1 5 -1 2 3 0", "2 3 0", "2 6 0", "3 4 2 0", "3 4 -2 0", "6 5 3 0", "6 5 -3 0"],
+           vec![6], "d4, -x1 & x2 & x3; the x1 branch is an and node over a dead or node and a live or node"),
+        // a dead and node shared by two decision nodes: (w & -x) | (-w & -y)
+        mk("d4-shared-dead-and", 3, "d4",
+           &["o 1 0", "o 2 0", "o 3 0", "a 4 0", "f 5 0", "t 6 0", "1 2 1 0", "1 3 -1 0", "2 4 2 0", "2 6 -2 0", "3 4 3 0", "3 6 -3 0", "4 5 0", "4 6 0"],
+           vec![1, 5, 0, 2], "d4, (x1 & -x2) | (-x1 & -x3); both decisions share one dead and node"),
+        mk("d4-shared-dead-and-deep", 4, "d4",
+           &["o 1 0", "o 2 0", "o 3 0", "a 4 0", "a 5 0", "f 6 0", "t 7 0", "1 2 1 0", "1 3 -1 0", "2 4 2 0", "2 7 -2 0", "3 4 3 0", "3 7 -3 0", "4 5 0", "4 7 0", "5 6 0"],
+           vec![1, 5, 0, 2, 9, 13, 8, 10], "d4, the same with one more and level above f and a free feature"),
     ]
 }
 
@@ -372,11 +387,16 @@ pub fn run(_kind: &str, ctx: &Ctx, out: &mut dyn Write) {
     wide_id_cases(ctx, &mut rng, out);
     table_boundary_cases(&mut rng, out);
     let srcs = sources(ctx, &mut rng);
+    let specials = special_inputs("c01");
     let mut k = 0;
-    for src in srcs.iter() {
-        let inp = match make_input(format!("c01-{}", k), src, &mut rng) {
-            Some(i) => i,
-            None => continue,
+    for idx in 0..(specials.len() + srcs.len()) {
+        let inp = if idx < specials.len() {
+            specials[idx].clone()
+        } else {
+            match make_input(format!("c01-{}", k), &srcs[idx - specials.len()], &mut rng) {
+                Some(i) => i,
+                None => continue,
+            }
         };
         k += 1;
         let mut s = String::new();
